@@ -202,6 +202,28 @@ def _down2d(shard, ctx, res, only):
 def _detrend(shard, ctx, res, only):
     from sigpyproc.core import kernels
 
+    # long arrays: the closed-form sums grow like m^3 and m^4
+    for n in (65537, 102571, 300001, 1000003, 3000017):
+        if only is not None and [n, "float64"] != only:
+            continue
+        res.evaluations += 1
+        case = {"shard": shard, "inner": [n, "float64"]}
+        t = np.arange(n, dtype=np.float64)
+        x = 3.0 + 2e-5 * t + np.sin(t * 0.001)
+        try:
+            got = np.asarray(kernels.detrend_1d(x), dtype=np.float64)
+        except Exception as e:  # noqa: BLE001
+            res.violation({"site": "kernels.detrend_1d", "symptom": f"raised {type(e).__name__}"}, case, repr(e))
+            continue
+        tc = t - t.mean()
+        slope = float((tc * (x - x.mean())).sum() / (tc * tc).sum())
+        want = x - (x.mean() + slope * tc)
+        dev = float(np.max(np.abs(got - want)))
+        if got.shape != want.shape or dev > 1e-6:
+            res.violation({"site": "kernels.detrend_1d", "symptom": "differs from the least-squares residual", "long_array": True}, case, f"n={n}: max dev {dev:.3e}")
+            continue
+        res.outcome("detrend/ok")
+        res.nontrivial += 1
     for n in range(1, shard["nmax"] + 1):
         for dtype in ("float32", "float64"):
             if only is not None and [n, dtype] != only:
